@@ -1306,3 +1306,182 @@ Proof.
     + subst. split; [constructor|split; [reflexivity|discriminate]].
 Qed.
 End RunSim.
+
+(* ---------- G: CIE then FDE — the whole table ---------- *)
+
+Definition sparams_of (f : fde_in) : sparams :=
+  {| sp_caf := f_caf f; sp_daf := f_daf f; sp_asize := f_asize f |}.
+
+(* the specification's answer for an already-parsed CIE/FDE (limits layered on by [c]) *)
+Definition spec_of (dbg : bool) (c : caps) (f : fde_in) : list srow * outcome :=
+  run_spec_lim c (sparams_of f) (f_init f) (spec_end (f_asize f) (f_init f) (f_range f))
+    (decode dbg (f_dparams f) (f_cie_off f) (f_cie f))
+    (decode dbg (f_dparams f) (f_fde_off f) (f_fde f)).
+
+Lemma length_zero_nil {A} (l : list A) : length l = 0%nat -> l = [].
+Proof. destruct l; [reflexivity|discriminate]. Qed.
+
+Section Whole.
+Variable c : caps.
+Variable p : sparams.
+
+Lemma Rcore_with_loc ini t s tp rest bottom a :
+  Rcore c p ini t s tp rest bottom -> Rcore c p ini t (with_loc a s) tp rest bottom.
+Proof. unfold Rcore. cbn [with_loc s_cfa s_rules s_args s_stack]. tauto. Qed.
+
+Lemma guard_with_loc ini s a : guard c ini (with_loc a s) = guard c ini s.
+Proof. reflexivity. Qed.
+
+Lemma save_sim dbg t sc tp rest bottom :
+  Rcore c p None t sc tp rest bottom ->
+  match save_initial_rules dbg c (t_ctx t), guard c (Some (s_rules sc)) sc with
+  | Ok cx2, Ok _ =>
+      exists tp' rest' bottom',
+        forall t', t_ctx t' = cx2 -> t_caf t' = sp_caf p -> t_daf t' = sp_daf p -> t_asize t' = sp_asize p ->
+                   Rcore c p (Some (s_rules sc)) t' sc tp' rest' bottom'
+  | Err e, Err e' => e = e'
+  | _, _ => False
+  end.
+Proof.
+  intros HR.
+  pose proof (stack_len _ _ _ _ _ _ _ _ HR) as Hlen.
+  destruct HR as (H1 & H2 & H3 & H4 & Hst & Htop & Hrest & Hb & Hg).
+  destruct Hb as (Hi & Hr & ->). rewrite app_nil_r in Hst.
+  pose proof Htop as (E1 & E2 & E3 & E4 & E5 & E6). cbn [fst snd] in *.
+  assert (Hl : length (r_regs tp) = length (s_rules sc)) by (apply same_map_length; auto).
+  apply guard_ok_iff in Hg. destruct Hg as (Hg1 & Hg2).
+  unfold save_initial_rules. rewrite Hi, andb_false_r, Hst.
+  assert (Hocc : stack_occ (Some (s_rules sc)) sc =
+                 (stack_occ None sc + if Nat.leb 2 (length (s_rules sc)) then 1 else 0)%nat)
+    by (unfold stack_occ; lia).
+  destruct (r_regs tp) as [|[r x] [|y l]] eqn:Er.
+  - (* no initial rules *)
+    cbn [length] in Hl. symmetry in Hl. apply length_zero_nil in Hl.
+    assert (Hg' : guard c (Some (s_rules sc)) sc = Ok tt).
+    { apply guard_ok_iff. rewrite Hocc, Hl. cbn [length Nat.leb]. rewrite Nat.add_0_r. auto. }
+    rewrite Hg'. exists tp, rest, []. intros t' Ht Hc Hd Ha.
+    unfold Rcore. rewrite Ht. cbn [c_stack c_init c_initial_rule].
+    refine (conj Hc (conj Hd (conj Ha (conj H4 (conj _ (conj Htop (conj Hrest (conj _ Hg')))))))).
+    + rewrite app_nil_r. reflexivity.
+    + unfold bottom_rel. cbn [c_init c_initial_rule]. auto.
+  - (* exactly one *)
+    cbn [length] in Hl.
+    assert (Hg' : guard c (Some (s_rules sc)) sc = Ok tt).
+    { apply guard_ok_iff. rewrite Hocc, <- Hl. cbn [Nat.leb]. rewrite Nat.add_0_r. auto. }
+    rewrite Hg'. exists tp, rest, []. intros t' Ht Hc Hd Ha.
+    unfold Rcore. rewrite Ht. cbn [c_stack c_init c_initial_rule].
+    refine (conj Hc (conj Hd (conj Ha (conj H4 (conj _ (conj Htop (conj Hrest (conj _ Hg')))))))).
+    + rewrite app_nil_r. reflexivity.
+    + unfold bottom_rel. cbn [c_init c_initial_rule]. repeat split; auto.
+      apply same_map_sym. exact E3.
+  - (* two or more: the row is cloned under the stack *)
+    cbn [length] in Hl.
+    assert (H2le : Nat.leb 2 (length (s_rules sc)) = true) by (apply Nat.leb_le; lia).
+    unfold guard. rewrite Hocc, H2le, Nat.add_1_r, <- cap_full_over, <- Hlen, Hst.
+    destruct (cap_full (max_stack c) (length (tp :: rest))) eqn:Ef; [reflexivity|].
+    unfold rules_occ in *. rewrite Hg2.
+    exists tp, rest, [tp]. intros t' Ht Hc Hd Ha.
+    unfold Rcore. rewrite Ht. cbn [c_stack c_init c_initial_rule].
+    assert (Hg' : guard c (Some (s_rules sc)) sc = Ok tt).
+    { apply guard_ok_iff. rewrite Hocc, H2le, Nat.add_1_r, <- cap_full_over, <- Hlen, Hst. auto. }
+    refine (conj Hc (conj Hd (conj Ha (conj H4 (conj eq_refl (conj Htop (conj Hrest (conj _ Hg')))))))).
+    unfold bottom_rel. cbn [c_init c_initial_rule]. repeat split; auto.
+    exists tp. split; [reflexivity|]. split; [rewrite Er; exact E3|apply Nat.leb_le; exact H2le].
+Qed.
+End Whole.
+
+Definition start_tbl (f : fde_in) (start last_end : N) (cx : ctx) : tbl :=
+  {| t_caf := f_caf f; t_daf := f_daf f; t_asize := f_asize f; t_next_start := start; t_last_end := last_end;
+     t_returned_last := false; t_cur_valid := false; t_ctx := cx |}.
+
+Lemma new_table_ok f start last_end cx :
+  c_stack cx <> [] ->
+  new_table (f_caf f) (f_daf f) (f_asize f) start last_end cx = Ok (start_tbl f start last_end cx).
+Proof. unfold new_table. destruct (c_stack cx); [congruence|reflexivity]. Qed.
+
+(* running one instruction stream on a table whose context satisfies Rcore *)
+Lemma collect_sim dbg c f ini start last_end cx items_off items s tp rest bottom :
+  valid_asize (f_asize f) = true ->
+  Rcore c (sparams_of f) ini (start_tbl f start last_end cx) s tp rest bottom ->
+  match collect (length items + 2) None dbg c (f_dparams f) (start_tbl f start last_end cx)
+                {| it_off := items_off; it_bytes := items |},
+        spec_run c (sparams_of f) ini last_end (with_loc start s)
+                 (decode dbg (f_dparams f) items_off items) with
+  | ((rows, o), cxf), (srows, (so, sfin)) =>
+      Forall2 row_equiv rows srows /\ o = so /\
+      (o = Done -> exists tf tp' rest' bottom', t_ctx tf = cxf /\
+                                                Rcore c (sparams_of f) ini tf sfin tp' rest' bottom')
+  end.
+Proof.
+  intros Hv HR.
+  set (it := {| it_off := items_off; it_bytes := items |}).
+  set (t := start_tbl f start last_end cx).
+  assert (Hd : Rdone c (sparams_of f) ini t (with_loc start s)).
+  { exists tp, rest, bottom. split; [apply Rcore_with_loc; exact HR|reflexivity]. }
+  destruct (Rdone_prologue c (sparams_of f) ini t (with_loc start s) false false Hd) as (t3 & Hp & HR3 & Hl3).
+  assert (Hpt : prologue t = Some t3) by exact Hp.
+  rewrite (collect_run_mid dbg c (f_dparams f) (length items) t it (length items + 2));
+    [|apply (dec_length dbg (f_dparams f) it)|lia|reflexivity].
+  rewrite Hpt.
+  apply (run_sim c (sparams_of f) ini last_end (dec dbg (f_dparams f) it) t3 (with_loc start s) HR3).
+  exact Hl3.
+Qed.
+
+Theorem model_eq_spec dbg c f cx :
+  valid_asize (f_asize f) = true ->
+  cap_full (max_stack c) 0 = false ->
+  Forall2 row_equiv (fst (fst (fde_rows dbg c f cx))) (fst (spec_of dbg c f)) /\
+  snd (fst (fde_rows dbg c f cx)) = snd (spec_of dbg c f).
+Proof.
+  intros Hv Hcap.
+  unfold fde_rows, fde_rows_lim, spec_of, run_spec_lim. rewrite Hv. cbn [negb].
+  unfold table_new, initialize, reset. rewrite Hcap. cbn [bind].
+  set (cx0 := {| c_stack := [default_row]; c_initial_rule := None; c_init := false |}).
+  rewrite (new_table_ok f 0 0 cx0) by discriminate. cbn [bind].
+  (* the CIE's initial instructions *)
+  assert (HR0 : Rcore c (sparams_of f) None (start_tbl f 0 0 cx0) init_state default_row [] []).
+  { unfold Rcore. cbn. repeat split; auto; try constructor.
+    - destruct (max_rules c); reflexivity.
+    - apply guard_ok_iff. cbn. split; [|destruct (max_rules c); reflexivity].
+      rewrite <- cap_full_over. exact Hcap. }
+  pose proof (collect_sim dbg c f None 0 0 cx0 (f_cie_off f) (f_cie f) init_state default_row [] [] Hv HR0) as Hc.
+  pose proof (drain_collect dbg c (f_dparams f) (length (f_cie f) + 2) (start_tbl f 0 0 cx0)
+                {| it_off := f_cie_off f; it_bytes := f_cie f |}) as Hdr.
+  destruct (collect (length (f_cie f) + 2) None dbg c (f_dparams f) (start_tbl f 0 0 cx0)
+              {| it_off := f_cie_off f; it_bytes := f_cie f |}) as [[rows_c o_c] cx1].
+  change (with_loc 0 init_state) with init_state in Hc.
+  destruct (spec_run c (sparams_of f) None 0 init_state (decode dbg (f_dparams f) (f_cie_off f) (f_cie f)))
+    as [srows_c [so_c sc]].
+  destruct Hc as (_ & Ho & Hfin). subst so_c. cbn [fst snd] in Hdr.
+  destruct o_c as [|e| |].
+  2: { rewrite Hdr. cbn. split; [constructor|reflexivity]. }
+  2: { rewrite Hdr. cbn. split; [constructor|reflexivity]. }
+  2: { rewrite Hdr. cbn. split; [constructor|reflexivity]. }
+  destruct Hdr as (t' & Hdr & Hctx). rewrite Hdr. cbn [bind].
+  destruct (Hfin eq_refl) as (tf & tp & rest & bottom & Htf & HRc).
+  (* save_initial_rules against the transition guard *)
+  pose proof (save_sim c (sparams_of f) dbg tf sc tp rest bottom HRc) as Hsave.
+  rewrite Htf, <- Hctx in Hsave.
+  rewrite guard_with_loc.
+  destruct (save_initial_rules dbg c (t_ctx t')) as [cx2|e| |];
+    destruct (guard c (Some (s_rules sc)) sc) as [[]|e'| |]; try contradiction.
+  2: { subst. cbn. split; [constructor|reflexivity]. }
+  cbn [bind].
+  destruct Hsave as (tp2 & rest2 & bottom2 & Hsave).
+  assert (Hne : c_stack cx2 <> []).
+  { destruct (Hsave (start_tbl f 0 0 cx2) eq_refl eq_refl eq_refl eq_refl) as (_ & _ & _ & _ & Hst & _).
+    cbn [t_ctx start_tbl] in Hst. rewrite Hst. discriminate. }
+  rewrite (new_table_ok f (f_init f) (end_address f) cx2 Hne).
+  rewrite (end_address_spec f Hv).
+  (* the FDE's instructions *)
+  pose proof (collect_sim dbg c f (Some (s_rules sc)) (f_init f) (spec_end (f_asize f) (f_init f) (f_range f))
+                cx2 (f_fde_off f) (f_fde f) sc tp2 rest2 bottom2 Hv
+                (Hsave (start_tbl f (f_init f) (spec_end (f_asize f) (f_init f) (f_range f)) cx2)
+                       eq_refl eq_refl eq_refl eq_refl)) as Hf.
+  destruct (collect (length (f_fde f) + 2) None dbg c (f_dparams f)
+              (start_tbl f (f_init f) (spec_end (f_asize f) (f_init f) (f_range f)) cx2)
+              {| it_off := f_fde_off f; it_bytes := f_fde f |}) as [[rows o] cxf].
+  destruct (spec_run c (sparams_of f) (Some (s_rules sc)) (spec_end (f_asize f) (f_init f) (f_range f))
+              (with_loc (f_init f) sc) (decode dbg (f_dparams f) (f_fde_off f) (f_fde f))) as [srows [so sfin]].
+  destruct Hf as (Hrows & Ho & _). cbn [fst snd]. auto.
+Qed.
